@@ -1,0 +1,14 @@
+//go:build verif
+
+package vaxis
+
+// VerifHook, when set, is called at linearisation points of the input loop
+// and of the lifecycle functions with the point's name. It may block (gate)
+// or panic (fault injection). Only built with -tags verif.
+var VerifHook func(point string)
+
+func verifHook(point string) {
+	if h := VerifHook; h != nil {
+		h(point)
+	}
+}
